@@ -458,7 +458,12 @@ func (s *scn) apiActor(r *rng) {
 			}
 		}
 	case 9:
-		s.api("POST", "/api/ctrl/add_ip_blacklist", map[string]interface{}{"ip": fmt.Sprintf("10.0.0.%d", r.intn(200)), "duration_sec": 1 + r.intn(2)})
+		ip := fmt.Sprintf("10.0.0.%d", r.intn(200))
+		if r.intn(3) == 0 {
+			// the scenario's own address: its hls requests of the next second take the black-listed path (no session id)
+			ip = "127.0.0.1"
+		}
+		s.api("POST", "/api/ctrl/add_ip_blacklist", map[string]interface{}{"ip": ip, "duration_sec": 1 + r.intn(2)})
 	}
 	sleepMs(5 + r.intn(40))
 }
